@@ -30,6 +30,20 @@ syntactically and the rule skipped (never approximated) when a condition fails:
        effect of its own, so running the body in the caller's frame is the same computation; (b) a `return` in the
        body returns from the caller exactly as `return self._h()` would; falling off the end returns None in both.
 
+ R5  `"..{}..{!r}..".format(a, b)`  ==>  f"..{a}..{b!r}.."
+       the receiver is a string literal, every field is auto-numbered (`{}`, `{!r}`, `{!s}`, `{!a}`; no names, indexes or
+       format specs), as many positional arguments as fields, no keywords, no `{{`/`}}` ... both evaluate the arguments
+       left to right and call format(x, "") / repr / str / ascii on them: the same string, the same calls in the same order.
+ R6  `async with A:` whose whole body is `async with B: body`  ==>  `async with A, B: body`   (same for `with`)
+       by definition of the multi-item form (PEP 343/492): enter A, enter B, body, exit B, exit A.
+ R7  a final `return None` / bare `return` as the LAST statement of a function body  ==>  removed
+       (`pass` when the body would become empty); falling off the end returns None.
+ R8  `try: (try: B except..: H [else: E]) finally: F`, the inner try being the whole body of the outer and having no
+       finally of its own  ==>  one `try/except/[else]/finally` ... the language defines the three-part form as exactly this nesting.
+ R9  `from .m import X, Y` for a module m the pinned source imports as `from . import m`  ==>  `from . import m` and
+       every load of the names rewritten `m.X`; skipped if X, Y or m is bound anywhere else in the module.  Same objects;
+       (the two differ only for code that rebinds `m.X` at run time, which neither aioftp nor the harness does).
+
 The pass is idempotent and leaves the pinned source unchanged up to `ast.unparse` formatting (checked by
 `python -m tools.py2v.normalize --selfcheck <src>`: the generators give the same facts with and without it).
 """
@@ -382,6 +396,127 @@ def _inline_helpers(cls):
     return False
 
 
+
+# ---------------------------------------------------------------- R5
+import re as _re
+
+_FIELD = _re.compile(r"\{(![rsa])?\}")
+
+
+def _format_to_fstring(node):
+    """R5 on one Call node; returns a JoinedStr or None"""
+    if not (isinstance(node, ast.Call) and isinstance(node.func, ast.Attribute) and node.func.attr == "format"):
+        return None
+    recv = node.func.value
+    if not (isinstance(recv, ast.Constant) and isinstance(recv.value, str)) or node.keywords:
+        return None
+    if any(isinstance(a, ast.Starred) for a in node.args):
+        return None
+    text = recv.value
+    if "{{" in text or "}}" in text:
+        return None
+    stripped = _FIELD.sub("", text)
+    if "{" in stripped or "}" in stripped:
+        return None
+    fields = list(_FIELD.finditer(text))
+    if len(fields) != len(node.args):
+        return None
+    values, pos = [], 0
+    for m, arg in zip(fields, node.args):
+        if m.start() > pos:
+            values.append(ast.Constant(value=text[pos:m.start()]))
+        conv = {None: -1, "!r": 114, "!s": 115, "!a": 97}[m.group(1)]
+        values.append(ast.FormattedValue(value=arg, conversion=conv, format_spec=None))
+        pos = m.end()
+    if pos < len(text):
+        values.append(ast.Constant(value=text[pos:]))
+    return ast.JoinedStr(values=values)
+
+
+class _Format(ast.NodeTransformer):
+    def visit_Call(self, node):
+        self.generic_visit(node)
+        new = _format_to_fstring(node)
+        return ast.copy_location(new, node) if new is not None else node
+
+
+# ---------------------------------------------------------------- R6, R8
+class _Nesting(ast.NodeTransformer):
+    def _merge_with(self, node):
+        self.generic_visit(node)
+        if len(node.body) == 1 and type(node.body[0]) is type(node) and not getattr(node, "type_comment", None):
+            inner = node.body[0]
+            node.items = node.items + inner.items
+            node.body = inner.body
+        return node
+
+    visit_AsyncWith = _merge_with
+    visit_With = _merge_with
+
+    def visit_Try(self, node):
+        self.generic_visit(node)
+        if node.finalbody and not node.handlers and not node.orelse and len(node.body) == 1 and isinstance(node.body[0], ast.Try):
+            inner = node.body[0]
+            if not inner.finalbody and inner.handlers:
+                inner.finalbody = node.finalbody
+                return inner
+        return node
+
+
+# ---------------------------------------------------------------- R7
+def _drop_final_return_none(fn):
+    last = fn.body[-1]
+    if isinstance(last, ast.Return) and (last.value is None or (isinstance(last.value, ast.Constant) and last.value.value is None)):
+        fn.body = fn.body[:-1] or [ast.Pass()]
+        return True
+    return False
+
+
+# ---------------------------------------------------------------- R9
+MODULE_IMPORTS = {"errors", "pathio"}  # what the pinned source imports as `from . import m`
+
+
+def _module_style_imports(tree):
+    for st in list(tree.body):
+        if not (isinstance(st, ast.ImportFrom) and st.level == 1 and st.module in MODULE_IMPORTS):
+            continue
+        if any(a.asname for a in st.names) or any(a.name == "*" for a in st.names):
+            continue
+        m = st.module
+        names = [a.name for a in st.names]
+        bound_elsewhere = set()
+        for n in ast.walk(tree):
+            if isinstance(n, ast.Name) and isinstance(n.ctx, (ast.Store, ast.Del)):
+                bound_elsewhere.add(n.id)
+            elif isinstance(n, (ast.FunctionDef, ast.AsyncFunctionDef, ast.ClassDef)):
+                bound_elsewhere.add(n.name)
+            elif isinstance(n, ast.arg):
+                bound_elsewhere.add(n.arg)
+            elif isinstance(n, ast.alias) and n not in st.names:
+                bound_elsewhere.add((n.asname or n.name).split(".")[0])
+            elif isinstance(n, ast.ExceptHandler) and n.name:
+                bound_elsewhere.add(n.name)
+        already = any(
+            isinstance(x, ast.ImportFrom) and x.level == 1 and x.module is None and any(a.name == m and not a.asname for a in x.names)
+            for x in tree.body
+        )
+        if (set(names) | ({m} if not already else set())) & bound_elsewhere:
+            continue
+
+        class _R(ast.NodeTransformer):
+            def visit_Name(self, n):
+                if n.id in names and isinstance(n.ctx, ast.Load):
+                    return ast.copy_location(ast.Attribute(value=ast.Name(id=m, ctx=ast.Load()), attr=n.id, ctx=ast.Load()), n)
+                return n
+
+        k = tree.body.index(st)
+        _R().visit(tree)
+        if already:
+            del tree.body[k]
+        else:
+            tree.body[k] = ast.copy_location(ast.ImportFrom(module=None, names=[ast.alias(name=m)], level=1), st)
+
+
 # ---------------------------------------------------------------- driver
 def if_assign_to_ifexp(node):
     """R1, applied by the generators that read a conditional store (StreamIO.__init__): not part of the global
@@ -398,6 +533,10 @@ def normalize_tree(tree):
         _inline_module_constants(tree)
         for fn in [n for n in ast.walk(tree) if isinstance(n, (ast.FunctionDef, ast.AsyncFunctionDef))]:
             _def_to_lambda(fn)
+            _drop_final_return_none(fn)
+        _module_style_imports(tree)
+        tree = _Nesting().visit(tree)
+        tree = _Format().visit(tree)
         ast.fix_missing_locations(tree)
         if ast.dump(tree) == before:
             break
